@@ -23,6 +23,10 @@ def run(case):
                 f.write(data)
         with open(os.path.join(top, 'secret.txt'), 'wb') as f:
             f.write(b'TOP SECRET')
+        # a sibling directory whose name merely starts like the root's (a string-prefix test would let it through)
+        os.makedirs(os.path.join(top, 'root-private'))
+        with open(os.path.join(top, 'root-private', 'key.pem'), 'wb') as f:
+            f.write(b'TOP SECRET key material')
         app = Application([('/static/', StaticApplication(root))])
         cl = Client(app, Response)
         opened = []
@@ -71,7 +75,8 @@ def run(case):
         builtins.open = my_open
         os.path.getmtime, os.path.getsize = my_getmtime, my_getsize
         try:
-            for path in case['requests']:
+            for path in list(case['requests']) + ['/static/../root-private/key.pem', '/static/' + os.path.join(top, 'root-private', 'key.pem'),
+                                                   '/static/../secret.txt']:
                 try:
                     resp = cl.get(path)
                     body = resp.get_data()
